@@ -286,6 +286,16 @@ def run_case(case):
                                         'witness': {'kind': 'move', 'n': n, 'edges': edges, 'moved': moved, 'order': case['order'],
                                                     'inputs': {k: [1 + (i * 7 % 11), 4] for i, k in enumerate(sorted(inputs))}, 'obligation': 'reach'}})
                 else:
+                    kids = [c for p, c in tree]
+                    if len(kids) != len(set(kids)):
+                        # an atom taken from the queue twice is repositioned after atoms placed relative to it: the traffic is
+                        # not a tree.  Confirmed (or not) by the replay on generic numbers: the exact bonds must span the molecule.
+                        import fractions as _fr
+                        gen = {}
+                        for i_, k_ in enumerate(sorted(inputs)):
+                            gen[k_] = [3 + (i_ * 7) % 11, 8] if k_.startswith('b') else [((i_ * 37 + 11) % 41) - 20, 16]
+                        records.append({'name': '%s: every atom is taken from the propagation queue once (traversal is a tree)' % tag, 'status': 'sat', 'secs': 0,
+                                        'witness': {'kind': 'move', 'n': n, 'edges': edges, 'moved': moved, 'order': case['order'], 'inputs': gen, 'obligation': 'repositioned twice'}})
                     todo = [(min(p, c), max(p, c)) for p, c in tree]
                     ok = set(parent) | {moved} == set(range(n)) and all((min(p, c), max(p, c)) in bv for p, c in tree)
                     records.append({'name': '%s: traversal tree spans the graph along real bonds' % tag, 'status': 'unsat' if ok else 'sat',
